@@ -1,5 +1,5 @@
-\* exhaustive, small: the stateless tracker as the client of the table
-CONSTANTS CIDS = {"c1", "c2"} MaxOps = 4 K0 = 1 Q0 = 1 Level0 = "tracker" Strict = TRUE Lag = FALSE
+\* exhaustive, quick: the stateless tracker as the client of the table; 1 CID, 3 operations
+CONSTANTS CIDS = {"c1"} MaxOps = 3 K0 = 1 Q0 = 1 Level0 = "tracker" Strict = TRUE Lag = FALSE
 INIT Init
-NEXT Next
-INVARIANTS TypeOK TableCid OneLivePerCid LiveIsTracked ReplacedIsCancelled CleanOnlyOwn CleanOnlyDone ErrorSticky PhaseForward FullQueueIsError QueueBound WorkerBound
+NEXT TrackerNext
+INVARIANTS TypeOK TableCid OneLivePerCid LiveIsTracked ReplacedIsCancelled CleanOnlyOwn CleanOnlyDone ErrorSticky PhaseForward FullQueueIsError FullQueueShowsError QueueBound WorkerBound
